@@ -393,3 +393,14 @@ def run_objects(prog, ctx=None):
     if n < ctx.get("min_functions", 1):
         raise Broken("ERRFX: only %d functions over %s found" % (n, recs))
     return res
+
+
+def run_named(prog, ctx=None):
+    """ERRFX on named functions: ctx['functions'] = [(name, index of the protected pointer parameter)]"""
+    res = Result("ERRFX")
+    for name, idx in ctx["functions"]:
+        f = prog.func(name)
+        if f is None:
+            raise Broken("anchor missing: " + name)
+        check_function(prog, res, f, [f.params[idx]["id"]], null_or_neg)
+    return res
